@@ -171,6 +171,7 @@ class Obs:
                 if old is not None and old.get("is_complete") and not c.get("is_complete"):
                     # a resubmission starts a new epoch
                     self.epoch += 1
+                    w.data["epoch"] = self.epoch
                     self.complete_seen = False
                     self.launch = {}
                     self.placed = {}
@@ -905,3 +906,178 @@ class C16(PropOracle):
 
 
 ORACLES.update({c.__name__: c for c in (C09, C14, C16)})
+
+
+def full_rows(w):
+    """processed_results.csv rows keyed by job name: the fields C13 names."""
+    out = {}
+
+    def num(x):
+        try:
+            return float(x)
+        except (TypeError, ValueError):
+            return x
+
+    for r in read_rows(w.rootp + "processed_results.csv") or []:
+        out.setdefault(r.get("name"), []).append(
+            (num(r.get("return_code")), r.get("status"), num(r.get("exec_time_s")), num(r.get("completion_time"))))
+    return out
+
+
+def dependents_closure(jobs, selected):
+    sel = set(selected)
+    changed = True
+    while changed:
+        changed = False
+        for j in jobs:
+            if j["name"] not in sel and set(j["blocked_by"]) & sel:
+                sel.add(j["name"])
+                changed = True
+    return sel
+
+
+class C13(PropOracle):
+    """Resubmission reruns exactly the selected jobs and their dependents; refuses when incomplete."""
+
+    prop = "C13"
+
+    def __init__(self):
+        self.cmds = []  # one record per resubmit command
+        self.active = None
+
+    def digest(self):
+        return repr([(c["vp"], c.get("code"), sorted(c.get("rerun") or ()), c["others_ran"], c.get("ended", False))
+                     for c in self.cmds])
+
+    def on_actor_round(self, w, vp, d):
+        if not vp.name.startswith("resub"):
+            return
+        actor = next(a for a in w.scen["actors"] if a["name"] == vp.name)
+        argv = actor["argv"]
+        flags = dict(failed="--no-failed" not in argv, missing="--no-missing" not in argv,
+                     successful="--successful" in argv)
+        c = read_json(w.rootp + "cluster_config.json") or {}
+        s = read_json(w.rootp + "job_status.json") or {}
+        rec = dict(vp=vp.name, host=vp.host, flags=flags, complete=bool(c.get("is_complete")), cluster=c, status=s,
+                   rows=full_rows(w), allrows=disk_rows(w), launch0=len(w.obs.launch_log), others_ran=False,
+                   sbatch0=len(w.obs.sbatch_log), lock_before=os.path.exists(w.rootp + "cluster_config.json.lock"))
+        if rec["complete"]:
+            res = read_json(w.rootp + "results.json") or {}
+            cls = {r["name"]: classify(r["return_code"], r["status"]) for r in res.get("results", [])}
+            names = [j["name"] for j in w.scen["jobs"]]
+            sel = set()
+            if flags["failed"]:
+                sel |= {n for n, k in cls.items() if k in ("failed", "canceled")}
+            if flags["successful"]:
+                sel |= {n for n, k in cls.items() if k == "successful"}
+            if flags["missing"]:
+                sel |= {n for n in names if n not in cls}
+            rec["selected"] = sel
+            rec["rerun"] = dependents_closure(w.scen["jobs"], sel)
+            w.data["rerun"] = rec["rerun"]
+            rec["classes"] = cls
+        self.cmds.append(rec)
+        self.active = rec
+
+    def on_transition(self, w, vp, d):
+        a = self.active
+        if a is not None and vp is not None and vp.name != a["vp"]:
+            a["others_ran"] = True
+
+    def on_actor_round_end(self, w, vp, d):
+        if not vp.name.startswith("resub"):
+            return
+        a = self.active
+        self.active = None
+        a["code"] = d["code"]
+        a["ended"] = True
+        if not a["complete"]:
+            self._check_refusal(w, vp, a)
+
+    def on_vend(self, w, vp, d):
+        if vp.name.startswith("resub") and d.get("crashed") and self.active is not None:
+            a = self.active
+            self.active = None
+            a["code"] = "crash: %s" % d.get("exc")
+            a["ended"] = True
+            a["crashed"] = True
+            if not a["complete"]:
+                self._check_refusal(w, vp, a)
+
+    def _check_refusal(self, w, vp, a):
+        if a["code"] != 1:
+            self.v(w, f"resubmit-jobs on an incomplete submission ended with {a['code']!r} instead of refusing with exit code 1", "refusal-exit")
+        if len(w.obs.sbatch_log) > a["sbatch0"] and not a["others_ran"]:
+            self.v(w, "resubmit-jobs on an incomplete submission submitted a batch", "refusal-sbatch")
+        if os.path.exists(w.rootp + "cluster_config.json.lock") and not a["lock_before"] and not any(
+                (w.rootp + "cluster_config.json.lock") in v.holding for v in w.vprocs if v.status == "ready"):
+            self.v(w, "resubmit-jobs on an incomplete submission left the cluster lock file behind (every later command blocks)", "refusal-lock-left")
+        if a["others_ran"]:
+            return
+        c = read_json(w.rootp + "cluster_config.json") or {}
+        s = read_json(w.rootp + "job_status.json") or {}
+        for k in ("submitter", "submitted_jobs", "completed_jobs", "is_complete", "num_jobs"):
+            if c.get(k) != a["cluster"].get(k):
+                self.v(w, f"refused resubmit-jobs changed {k}: {a['cluster'].get(k)!r} -> {c.get(k)!r}", f"refusal-changed-{k}")
+        if s.get("jobs") != a["status"].get("jobs") or s.get("hpc_job_ids") != a["status"].get("hpc_job_ids"):
+            self.v(w, "refused resubmit-jobs changed the job states", "refusal-changed-jobs")
+        if full_rows(w) != a["rows"]:
+            self.v(w, "refused resubmit-jobs changed the results", "refusal-changed-results")
+
+    def on_launch(self, w, vp, d):
+        # dependency order inside a resubmission: a rerun blocker needs a NEW row (old ones were erased)
+        cm = [c for c in self.cmds if c["complete"]]
+        if not cm:
+            return
+        a = cm[-1]
+        j = d["job"]
+        if j not in a["rerun"]:
+            self.v(w, f"job {j} was rerun although it is neither selected ({sorted(a['selected'])}, flags {a['flags']}) nor a dependent", "unselected-job-rerun")
+
+    def on_end(self, w, vp, d):
+        cm = [c for c in self.cmds if c["complete"]]
+        o = w.obs
+        c = o.cluster or {}
+        failed_cmds = [x for x in self.cmds if x.get("crashed") or (x["complete"] and x.get("code") not in (0,))]
+        if any(x.get("crashed") or (x["complete"] and isinstance(x.get("code"), int) and x.get("code") not in (0, 1)) for x in self.cmds):
+            pass
+        if self.cmds and not c.get("is_complete") and not w.data.get("faulty"):
+            last = self.cmds[-1]
+            self.v(w, f"after resubmit-jobs ({last['vp']} ended with {last.get('code')!r}) the submission never completed again "
+                      f"although try-submit-jobs was run (submitter={c.get('submitter')!r}, lock left={os.path.exists(w.rootp + 'cluster_config.json.lock')})",
+                   "no-way-forward")
+            return
+        if not cm or not c.get("is_complete"):
+            return
+        # compare against the LAST successful resubmission and the launches since it
+        a = cm[-1]
+        since = [l["job"] for l in o.launch_log[a["launch0"]:]]
+        cnt = {}
+        for j in since:
+            cnt[j] = cnt.get(j, 0) + 1
+        rows = full_rows(w)
+        res = read_json(w.rootp + "results.json") or {}
+        got = {}
+        for r in res.get("results", []):
+            got[r["name"]] = got.get(r["name"], 0) + 1
+        names = [j["name"] for j in w.scen["jobs"]]
+        for n in names:
+            if n in a["rerun"]:
+                if cnt.get(n, 0) > 1:
+                    self.v(w, f"job {n} rerun {cnt[n]} times by one resubmission", "rerun-twice")
+                if cnt.get(n, 0) == 0 and not any(r[1] == "canceled" for r in rows.get(n, [])):
+                    # (resubmissions of the explored scenarios are fault-free: nothing can go missing again)
+                    self.v(w, f"job {n} is selected for resubmission (or depends on a selected job) but was not rerun; "
+                              f"rows={rows.get(n)} missing={res.get('missing_jobs')}", "selected-not-rerun")
+            else:
+                if cnt.get(n, 0):
+                    self.v(w, f"job {n} not selected (flags {a['flags']}, selected {sorted(a['selected'])}) but rerun", "unselected-job-rerun")
+                if rows.get(n) != a["rows"].get(n):
+                    self.v(w, f"result of untouched job {n} changed: {a['rows'].get(n)} -> {rows.get(n)}", "untouched-result-changed")
+            if got.get(n, 0) > 1 or len(rows.get(n, [])) > 1:
+                self.v(w, f"job {n} has {len(rows.get(n, []))} rows / {got.get(n, 0)} entries after resubmission", "duplicate-entry")
+            if got.get(n, 0) == 0 and n not in res.get("missing_jobs", []):
+                self.v(w, f"job {n} has neither a result nor is it reported missing after resubmission", "unaccounted")
+
+
+ORACLES["C13"] = C13
